@@ -70,6 +70,13 @@ func (node *tagMacroNode) call(ctx *ExecutionContext, args ...*Value) (*Value, e
 	// Make a context for the macro execution
 	macroCtx := NewChildExecutionContext(ctx)
 
+	// The macro's body can refer to the macro by the name it was defined
+	// with, wherever it is called (it may have been imported under another
+	// name, or the name may mean something else there)
+	macroCtx.Private[node.name] = func(args ...*Value) (*Value, error) {
+		return node.guardedCall(ctx, args...)
+	}
+
 	// Register all arguments in the private context
 	macroCtx.Private.Update(argsCtx)
 
